@@ -62,6 +62,29 @@ def interesting(beh):
     return pubs >= 2 and views
 
 
+STORAGE_CASES = [
+    "ApplyUpdate:bootstrap", "ApplyUpdate:extend", "ApplyUpdate:replace-tip", "ApplyUpdate:replace-truncate",
+    "ApplyUpdate:preserved", "ApplyUpdate:delta", "ApplyUpdate:nochange-classes", "ApplyUpdate:nochange-known",
+    "ApplyUpdate:nochange-empty", "ApplyUpdate:bootstrap-not-full", "ApplyUpdate:bootstrap-wrong-height",
+    "ApplyUpdate:misaligned", "ApplyUpdate:below-oldest", "ApplyUpdate:gap", "ApplyUpdate:append-not-full",
+    "ApplyUpdate:delta-non-tip", "ApplyUpdate:base-tx-count", "ApplyUpdate:delta-id-mismatch",
+    "ApplyUpdate:nochange-non-tip", "AdvanceTo:empty", "AdvanceTo:aligned", "AdvanceTo:drop-all", "AdvanceTo:rebuild",
+    "Snapshot:", "HeadAdvance:", "HeadRevert:"]
+POLLER_CASES = [
+    "TickStart:empty", "TickStart:aligned", "TickStart:drop-all", "TickStart:rebuild", "LatestResp:backfill",
+    "LatestResp:bootstrap", "LatestResp:replace-tip", "LatestResp:preserved", "LatestResp:delta",
+    "LatestResp:nochange-empty", "LatestResp:latest-failed", "ByNumResp:bootstrap", "ByNumResp:extend",
+    "ByNumResp:bynum-failed"]
+
+
+def require_cases(res, prefix, cases):
+    """vacuity guard of the binding: every case of the code's case analysis was replayed on the real code"""
+    st = res.get("stats", {})
+    missing = [c for c in cases if not st.get(prefix + c)]
+    if missing:
+        raise vlib.Broken("replayed behaviours never exercised: %s" % missing)
+
+
 def validate_trace(ctx, trace_file, iter_starts, behaviours_of_iter=None):
     """TLC decides the recorded concurrent runs; a rejection is a divergence observed on the code."""
     ok, res = ctx.tlc_trace(FAMILY, "PreConfirmedTrace.tla", "PreConfirmedTrace.cfg", trace_file, timeout=2400)
@@ -159,7 +182,7 @@ def run(ctx):
     ctx.tlc_check(FAMILY, "MCPreConfirmed.tla", "PreConfirmed_poller_quick.cfg", timeout=1500)
     if thorough:
         r = ctx.tlc_check(FAMILY, "MCPreConfirmed.tla", "PreConfirmed_views.cfg", timeout=3000, coverage=True)
-        vlib.require_actions_covered(r, ignore=("TickStart", "LatestResp", "ByNumResp"))
+        vlib.require_actions_covered(r)
         ctx.coverage["action_coverage_views_cfg"] = {k: v["taken"] for k, v in r.get("coverage", {}).items()}
         ctx.tlc_check(FAMILY, "MCPreConfirmed.tla", "PreConfirmed_forks.cfg", timeout=3000)
         ctx.tlc_check(FAMILY, "MCPreConfirmed.tla", "PreConfirmed_thorough.cfg", timeout=3000)
@@ -174,6 +197,7 @@ def run(ctx):
                "newstate": [i % 2 == 1 for i in range(len(behaviours))]}
     res = ctx.run_engine(binary, "TestPreconfReplay", payload, timeout=2400)
     ctx.absorb(res, ENGINE, "TestPreconfReplay")
+    require_cases(res, "case ", STORAGE_CASES)
     ctx.coverage["behaviours_storage"] = len(behaviours)
     ctx.coverage["behaviours_storage_nontrivial"] = sum(1 for b in behaviours if interesting(b))
     ctx.coverage["steps_replayed_storage"] = res.get("steps", 0)
@@ -186,6 +210,7 @@ def run(ctx):
                "newstate": [i % 2 == 1 for i in range(len(pbehaviours))]}
     res = ctx.run_engine(binary, "TestPreconfPoller", payload, timeout=2400)
     ctx.absorb(res, ENGINE, "TestPreconfPoller")
+    require_cases(res, "poller case ", POLLER_CASES)
     ctx.coverage["behaviours_poller"] = len(pbehaviours)
     ctx.coverage["behaviours_poller_nontrivial"] = sum(1 for b in pbehaviours if interesting(b))
     ctx.coverage["steps_replayed_poller"] = res.get("steps", 0)
